@@ -117,6 +117,7 @@ func GenScn(c *vs.Case, o GenOpts) *Scn {
 	if o.AllowFinalize {
 		cfg.FinalizeHook = c.Prob(1, 3)
 	}
+	cfg.SubresourcesFirst = c.Prob(1, 5)
 
 	// parent
 	pname := "p1"
